@@ -54,6 +54,7 @@ class Config:
         else:
             h = [rand_hyper(r, k, f) for f in fields]
         L.append(("opt 0 %s %s" % (k, " ".join(f2x(v) for v in h))).strip())
+        self.h = h
         # settings: scaling, decay, clipping, epoch
         if r.random() < 0.7:
             L.append("set 0 lr_scale %s" % f2x(r.choice([0.5, 2.0, 0.25]) if self.exact else f32(r.uniform(0.1, 2))))
@@ -113,17 +114,35 @@ class Config:
         L.append("state 0")
         if copies:
             L.append("state %d" % copies[-1][0])
+        # the statement of Resume.equiv as one experiment (initState / train / checkpoint / restore of the model)
+        if not self.cross:
+            kk = r.randint(0, self.total)
+            nn = self.total - kk
+            ep = self.boundary if self.boundary is not None else r.choice([0, 0, 1, 7])
+            lr = r.choice([1.0, 0.5, 2.0]) if self.exact else f32(r.uniform(0.1, 2))
+            l2 = r.choice([0.0, 0.5, 0.25]) if self.exact else f32(r.choice([0.0, 0.01, 0.1]))
+            clip = f32(r.choice([0.5, 1.0, 3.0])) if self.clip else 0.0
+            na = r.randint(1, 3)
+            ps = []
+            for p in range(m):
+                sh = r.choice(SHAPES)
+                ps += [",".join(map(str, sh)) or "-", xs([self.val() for _ in range(size(sh))])]
+            L.append("resume %s %d %d %s %s %s %s u%d %s %s %s %s" % (
+                k, kk, nn, xs(self.h), f2x(lr), f2x(l2), f2x(clip), ep, xs([self.coef() for _ in range(na)]),
+                xs([self.coef() for _ in range(na)]), ",".join(T.stat_names), " ".join(ps)))
         return L
 
 
 def judge_line(line, impl):
     """verdicts that do not need the model or the specification"""
     w = line.split(" ")[0]
+    if w == "resume" and not impl.startswith("ok same"):
+        return "train(k+n) differs from train n after restore(checkpoint(train k)), or the experiment fails (%s)" % impl[:120]
     if w in ("same", "osame") and impl.startswith("ok differ"):
         return "the resumed run differs from the uninterrupted run (%s)" % impl
-    if w == "restore" and not impl.startswith("ok"):
+    if w == "restore" and impl.startswith("err"):
         return "restoring the checkpoint into fresh objects fails (%s)" % impl
-    if w == "checkpoint" and not impl.startswith("ok"):
+    if w == "checkpoint" and impl.startswith("err"):
         return "saving the checkpoint fails (%s)" % impl
     return None
 
@@ -186,13 +205,16 @@ def run(chk):
     R = ol.Runner(chk, judge_line=judge_line, use_spec=False)
     dis, judged, crashes = R.correspond(streams, timeout=900)
     cmp_lines = [(l, o) for lines, impl in R.streams_out for l, o in zip(lines, impl) if l.startswith(("same ", "osame "))]
+    chk.extra_cov["resume_experiments_train_restore_checkpoint"] = len(
+        [1 for lines, impl in R.streams_out for l, o in zip(lines, impl) if l.startswith("resume ") and o.startswith("ok same")])
     chk.extra_cov["configurations"] = len(hists)
     chk.extra_cov["interruption_continuation_pairs"] = pairs
     chk.extra_cov["comparisons_resumed_vs_uninterrupted"] = len(cmp_lines)
     chk.extra_cov["of_those_bit_exact_mode"] = len([1 for l, o in cmp_lines if " bits " in l])
     chk.extra_cov["of_those_equal"] = len([1 for l, o in cmp_lines if o == "ok same"])
-    chk.extra_cov["max_relative_deviation_impl_vs_model_float32"] = R.model_cmp.max_dev
-    report_violations(chk, judged, quick, use_spec=False, judge_line=judge_line, expected="verdict:")
+    chk.extra_cov["max_deviation_impl_vs_model_float32_over_max_abs_1"] = R.model_cmp.max_dev
+    report_violations(chk, judged, quick, use_spec=False, judge_line=judge_line, expected="verdict:",
+                      protect=("mode", "device", "opt", "param", "add", "addm", "checkpoint", "restore"))
     if not chk.violations:
         for d in dis:
             hist = cut_history(d["lines"])
@@ -208,11 +230,7 @@ def run(chk):
         if c.get("at_exit"):
             chk.report("optim-resume:crash-at-exit:" + c["kind"], "the harness process fails at exit (%s)" % c["kind"],
                        {"family": "optim", "stderr": c.get("stderr", "")[-1500:]}, found_input=True)
-    broken = chk.broken_obligations()
-    if broken and not chk.violations:
-        for name, why in broken.items():
-            chk.report("obligation:" + name, "theorem %s no longer checks: %s" % (name, why),
-                       {"theorem": name, "reason": why, "log": (chk.oblig or {}).get("log_tail", "")[-1500:]}, found_input=False)
+    ol.report_broken(chk)
     chk.trusted += [
         "depends on property C13: `checkpoint`/`restore` of Model/Resume.lean keep exactly the get_configs maps and value + all named statistics of every parameter; that Optimizer::save/load and Model::save/load(with_stats=true) carry these data bit for bit through the file is C13's statement (here it is only exercised: the harness saves to and loads from real temporary files)",
         "modelled, not verified: Optimizer::update/add and Parameter are hand-modelled (Model/Optimizer.lean); update_parameter, configure_parameter, get_configs/set_configs, constructor defaults and the base-class settings are translated from the sources on every run",
